@@ -1,8 +1,10 @@
 #!/venv/bin/python
 """Apply every seeded change under /verif/seeded/<id>/ to /repo, run the property's quick check, undo the change.
 
-usage: tools/run_seeded.py [ID ...]   (default: all).  Writes seeded/results.json and prints one line per change.
-/repo must be clean (no uncommitted edits) when this starts; it is left clean.
+usage: tools/run_seeded.py [--worktree DIR] [ID ...]   (default: all).  Writes seeded/results.json and prints one line per change.
+/repo must be clean (no uncommitted edits) when this starts; it is left clean.  With --worktree DIR (a scratch git worktree of
+/repo outside /repo and /verif) the patches are applied there instead and the checks are run with --repo DIR: same analysis,
+/repo itself is not touched (used while other work reads /repo).
 """
 import json
 import os
@@ -19,10 +21,20 @@ def sh(*cmd, **kw):
 
 
 def main() -> int:
+    global REPO
+    argv = sys.argv[1:]
+    extra = []
+    if argv and argv[0] == "--worktree":
+        REPO = argv[1]
+        argv = argv[2:]
+        extra = ["--repo", REPO]
+        sh("git", "-C", REPO, "checkout", "-q", "--detach", sh("git", "-C", "/repo", "rev-parse", "HEAD").stdout.strip())
+        sh("git", "-C", REPO, "reset", "-q", "--hard")
+    sys.argv = [sys.argv[0]] + argv
     if sh("git", "-C", REPO, "status", "--porcelain", "--untracked-files=no").stdout.strip():
         print("refusing to run: /repo has uncommitted changes")
         return 2
-    ids = sys.argv[1:] or sorted(d for d in os.listdir(SEEDED) if os.path.isdir(os.path.join(SEEDED, d)))
+    ids = argv or sorted(d for d in os.listdir(SEEDED) if os.path.isdir(os.path.join(SEEDED, d)))
     results = {}
     for sid in ids:
         d = os.path.join(SEEDED, sid)
@@ -41,7 +53,7 @@ def main() -> int:
             props = [prop] + [p for p in meta.get("also_check", [])]
             fired = {}
             for p in props:
-                r = sh(os.path.join(ROOT, "check"), p, "--tier", "quick")
+                r = sh(os.path.join(ROOT, "check"), p, "--tier", "quick", *extra)
                 lines = [l.strip() for l in r.stdout.splitlines()]
                 viol = [l for l in lines if l.startswith("src/") or l.startswith("docs/")]
                 fired[p] = {"exit": r.returncode, "violations": sum(1 for l in lines if l.startswith("VIOLATION")),
